@@ -278,6 +278,9 @@ def edge_replay(rep, g, c, traces, maxedges, rng):
             except impl.Timeout:
                 raise
             except Exception as ex:
+                if c['version'] not in (0, 1, 2):      # outside the documented versions the property quantifies over
+                    rep.drift('version %s (outside the documented versions 0-2): %s step %s raised %r' % (c['version'], c['name'], sorted(sel), ex))
+                    continue
                 rep.violation('C07_NoException', {'strategy': 'extendsplit', 'version': c['version'], 'exception': type(ex).__name__},
                               {'config': c['name'], 'selection': sorted(sel), 'exception': repr(ex)}, what='%s step %s raised %r' % (c['name'], sorted(sel), ex))
                 continue
